@@ -1,0 +1,24 @@
+//go:build verif
+
+// Package verifhook provides cooperative scheduling points for the
+// deterministic simulator living outside this repository (/verif).
+// With the build tag "verif" off (the default), Yield is an empty function
+// and the shipped behaviour is unchanged.
+package verifhook
+
+import "context"
+
+// Enabled reports whether the binary was built with the verif tag.
+const Enabled = true
+
+// Hook is installed by the simulator. It is called at every Yield site with
+// the caller's context (which carries the simulated task identity) and the
+// name of the scheduling point.
+var Hook func(ctx context.Context, point string)
+
+// Yield hands control to the simulator, if one is installed.
+func Yield(ctx context.Context, point string) {
+	if h := Hook; h != nil {
+		h(ctx, point)
+	}
+}
